@@ -360,7 +360,7 @@ pub fn o_tree_suffix(prop: &str, ex: &Exec, with_remount: bool) -> V {
     }
     // what the independent decoder says about links is part of the tree that the views have to agree on: the dot
     // entries of every directory (I3) and the termination / ownership of every chain the tree is read through (I1)
-    if with_remount {
+    {
         for (stage, d) in [("decode-after-flush", &sx.flushed), ("abandoned-image", &sx.abandoned), ("decode-after-unmount", &sx.final_decoded)] {
             if let Some(Ok(d)) = d {
                 for f in &d.findings {
